@@ -1131,13 +1131,80 @@ def dg_direct(ctx, pt, r, cases=None):
 
 def sn_gen(r):
     sens = g_sens(r, zero_p=0.03)
+    eps = g_eps(r)
     lo, hi = g_domain(r, sens, allow_inf=False)
-    return {"epsilon": g_eps(r), "sensitivity": sens, "lower": lo, "upper": hi}
+    if sens > 0 and r.chance(0.55):
+        # a domain of several rounding cells (lambda < 2 / eps in the sensitivity-1 frame) around its centre, so that the
+        # Laplace scale randomise really uses can be read off the break-points of its output; sensitivities below and above 1
+        if r.chance(0.5):
+            sens = r.loguniform(1e-3, 1e3)
+        w = sens * (10.0 / min(eps, 50.0) + 2.0) * r.loguniform(1.5, 100.0)
+        lo = r.choice([0.0, -w / 2, r.uniform(-3, 3) * w])
+        hi = lo + w
+    return {"epsilon": eps, "sensitivity": sens, "lower": lo, "upper": hi}
+
+
+def snap_out(params, value, bit, u):
+    """Snapping.randomise(value) with the sign bit and the uniform u in (2^-32, 1) scripted through getrandbits:
+    bits = [sign, 52 mantissa bits, a 32-bit word whose bit length sets the exponent]"""
+    f, e = math.frexp(u)                       # u = f 2^e, f in [0.5, 1)
+    mant = int(f * (1 << 53)) - (1 << 52)
+    j = -e
+    rng = seams.ScriptedSystemRandom(bits=[bit, mant, 1 << (31 - j)])
+    return float(quiet(mk("Snapping", params, random_state=rng).randomise, value))
+
+
+def measure_snapping_scale(params):
+    """the Laplace scale Snapping.randomise REALLY uses, in its sensitivity-1 frame, read off the sampler: with the input
+    at the centre of the domain and the sign positive the output is  round_to_multiple_of_lambda(x0 + scale |log u|)
+    (lambda = the power of two in [scale, 2 scale)); it steps from cell 0 to cell 1 at |log u| = L1 and from 1 to 2 at L2,
+    with  scale (L2 - L1) = lambda  whatever the offset x0.  lambda is the output step divided by the sensitivity.
+    Returns (scale, lambda) or None when the domain holds fewer than three cells."""
+    lo, hi, sens = params["lower"], params["upper"], params["sensitivity"]
+    if not (sens > 0 and hi > lo):
+        return None
+    value = lo + (hi - lo) / 2
+
+    def f(L):
+        return snap_out(params, value, 1, math.exp(-L))
+    o0, o1 = f(0.25), f(1.25)
+    if not o1 > o0:
+        return None
+
+    def boundary(La, Lb, oa):
+        """smallest L (as |log u| of a double u) whose output differs from oa; f(La) == oa, f(Lb) != oa"""
+        ua, ub = f2b(math.exp(-La)), f2b(math.exp(-Lb))        # ua > ub as doubles
+        while ua - ub > 1:
+            mid = (ua + ub) // 2
+            if snap_out(params, value, 1, b2f(mid)) == oa:
+                ua = mid
+            else:
+                ub = mid
+        return -math.log(b2f(ub)), snap_out(params, value, 1, b2f(ub))
+    L1, o1b = boundary(0.25, 1.25, o0)
+    o3 = f(3.3)
+    if not o3 > o1b:
+        return None
+    L2, o2 = boundary(L1 + 1e-9 if L1 + 1e-9 < 3.3 else L1, 3.3, o1b)
+    lam_est = (o1b - o0) / sens
+    if not (lam_est > 0 and math.isfinite(lam_est)):
+        return None
+    lam = 2.0 ** round(math.log2(lam_est))
+    if abs(lam_est / lam - 1) > 1e-3 or abs((o2 - o1b) / (o1b - o0) - 1) > 1e-3 or not L2 > L1:
+        return None
+    return lam / (L2 - L1), lam
 
 
 def sn_measure(pt):
     m = mk("Snapping", pt.params)
     pt.meas = {"eff": float(m.effective_epsilon()), "bound": float(m._bound)}
+    if BACKEND[0] == "system" and FACTORY.get("Snapping") is None:
+        try:
+            r = measure_snapping_scale(pt.params)
+        except (seams.ScriptExhausted, OverflowError, ValueError, ZeroDivisionError):
+            r = None
+        if r is not None:
+            pt.meas["scale_used"], pt.meas["lambda"] = r
 
 
 def sn_lines(pt):
@@ -1154,6 +1221,13 @@ def sn_compare(ctx, pt, outs):
         ok = False
     if not close(me, pt.meas["eff"], 1e-13, 0):
         ctx.disagree("calibration.Snapping.effective-epsilon", pt.params, me, pt.meas["eff"])
+        ok = False
+    su = pt.meas.get("scale_used")
+    if su is None:
+        ctx.count("snapping_sampler_scale_unmeasurable")
+    elif not close(1.0 / su, pt.meas["eff"], 1e-9, 0):
+        ctx.disagree("calibration.Snapping.sampler-scale", pt.params, 1.0 / pt.meas["eff"], su,
+                     note="the Laplace scale randomise uses (sensitivity-1 frame) is not 1 / effective_epsilon()")
         ok = False
     return ok
 
@@ -1175,6 +1249,17 @@ def sn_direct(ctx, pt, r, cases=None):
     elif achieved > allowed:
         report(ctx, pt, "C02:Snapping:eff-eps", "eff-eps", float(achieved), float(allowed),
                {"internal_epsilon": pt.meas["eff"], "B": float(Bq)})
+        return
+    su = pt.meas.get("scale_used")
+    if su is not None:
+        # the internal epsilon the SAMPLER really uses: 1 / (Laplace scale in the sensitivity-1 frame, measured above)
+        e_used = 1 / Fraction(su)
+        ach = e_used * (1 + 12 * Bq * eta) + 2 * eta
+        ctx.count("divergences")
+        if ach > allowed * (1 + Fraction(1, 10 ** 9)):          # 1e-9: resolution of the break-point measurement
+            report(ctx, pt, "C02:Snapping:sampler-scale", "eff-eps", float(ach), float(allowed),
+                   {"scale_used_by_randomise": su, "lambda": pt.meas.get("lambda"), "internal_epsilon_used": float(e_used),
+                    "effective_epsilon()": pt.meas["eff"], "B": float(Bq)})
 
 
 MECHS = {
@@ -1213,6 +1298,10 @@ FIXED = [
     ("GaussianDiscrete", {"epsilon": 0.5, "delta": 1e-9, "sensitivity": 3}),
     ("Snapping", {"epsilon": 1.0, "sensitivity": 1.0, "lower": 0.0, "upper": 1000.0}),
     ("Snapping", {"epsilon": 1e-3, "sensitivity": 1e-6, "lower": 0.0, "upper": 1e6}),
+    ("Snapping", {"epsilon": 1.0, "sensitivity": 0.1, "lower": 0.0, "upper": 10.0}),
+    ("Snapping", {"epsilon": 1.0, "sensitivity": 10.0, "lower": 0.0, "upper": 1000.0}),
+    ("Snapping", {"epsilon": 0.3, "sensitivity": 1e-3, "lower": -1.0, "upper": 1.0}),
+    ("Snapping", {"epsilon": 5.0, "sensitivity": 1e3, "lower": 0.0, "upper": 1e5}),
     # sensitivity / epsilon tiny but non-zero: only sensitivity == 0 may be noise-free
     ("GaussianAnalytic", {"epsilon": 1.0, "delta": 1e-5, "sensitivity": 1e-9}),
     ("GaussianAnalytic", {"epsilon": 1e9, "delta": 1e-5, "sensitivity": 1.0}),
